@@ -223,6 +223,27 @@ func (e *emitter) flowTaskFn(t *ps.Task) string {
 
 func (e *emitter) predFn(t *ps.Task) string {
 	pid := e.p.PID
+	if strings.HasPrefix(e.p.Quirk, "sig-pred") && e.p.QuirkK == t.K {
+		// unsupported predicate signatures (type-correct Go): a defined boolean result type,
+		// two results, a variadic parameter
+		cn := e.ctxName()
+		decl, vals := params(t.PCtx, cn, nil, t.PIns, e.tyx)
+		call := fmt.Sprintf("h.Pred(%s, %d", ctxArg(t.PCtx, cn), t.K)
+		for _, v := range vals {
+			call += ", " + v
+		}
+		switch e.p.Quirk {
+		case "sig-prednamedbool":
+			return fmt.Sprintf("func(%s) Flag { return Flag(%s)) }", decl, call)
+		case "sig-pred2":
+			return fmt.Sprintf("func(%s) (bool, error) { return %s), nil }", decl, call)
+		default: // sig-predvariadic
+			if decl != "" {
+				decl += ", "
+			}
+			return fmt.Sprintf("func(%s_ ...int64) bool { return %s) }", decl, call)
+		}
+	}
 	if t.PForm == "named" {
 		name := fmt.Sprintf("p%dPred%d", pid, t.K)
 		decl, vals := params(t.PCtx, "c", nil, t.PIns, tyc)
@@ -674,6 +695,9 @@ func (e *emitter) emitFlowTask(t *ps.Task, file string) {
 		var as []string
 		for o, ty := range t.Outs {
 			as = append(as, e.arg(fmt.Sprintf("mkT%d(rt.FB(%d, %d))", ty, t.K, o)))
+		}
+		if p.Quirk == "sig-fbarity" && p.QuirkK == t.K {
+			as = append(as, "int64(0)") // one value too many
 		}
 		e.w(",\n\t\t\tcff.FallbackWith(%s)", strings.Join(as, ", "))
 	}
